@@ -16,7 +16,7 @@ const (
 	rC03Graph = "ORDABS.dependency-graph"
 	rC03Strat = "ORDABS.stratify-small-graphs"
 	rC03TX    = "TX.predicate-collectors"
-	rC03Order = "ORD.strata-in-order"
+	rC03Order = "ORDABS.strata-in-order"
 )
 
 func checkC03(c *core.Ctx) {
@@ -24,7 +24,7 @@ func checkC03(c *core.Ctx) {
 	c.Rule(rC03Graph, "makeDepGraph, evaluated on one-rule programs with every premise kind (atom, negated atom, temporal literal with and without operator/interval around either, temporal atom, equality, built-in, extensional) under no transform, a let-transform and a do-transform, adds exactly the edges the property requires with the right polarity", 1)
 	c.Rule(rC03Strat, "Stratify, evaluated from source (with makeDepGraph's result supplied) on every labelled dependency graph over at most three predicates, in ascending and descending map order: it fails exactly when a negative edge lies inside a strongly connected component; otherwise mutually recursive predicates share a layer, every dependency lies in the same or an earlier layer, strictly earlier when negative, and the predicate-to-layer map agrees with the layer list", 1)
 	c.Rule(rC03TX, "the two dependency-graph builders (stratification, temporal recursion check) handle the same literal kinds", 2)
-	c.Rule(rC03Order, "the engine evaluates the returned layers in ascending index and treats exactly the earlier layers as extensional", 1)
+	c.Rule(rC03Order, "(*engine).evalStrata, read from source and evaluated on a three-layer program with the per-layer fixpoint, the rewriter and the stores replaced by recorders: the engine evaluates the returned layers in ascending index and treats exactly the earlier layers as extensional", 1)
 	c03AddEdge(c)
 	c03DepGraph(c)
 	c03Stratify(c)
@@ -398,11 +398,4 @@ func c03StratifyRule(c *core.Ctx, rC03Strat string) {
 	c.Check(bad == "", rC03Strat, f.Name, f.Decl.Pos(), fmt.Sprintf("correct on all %d graph/order combinations (all labelled graphs on 1-2 predicates, all loop-free-diagonal graphs on 3)", runs), bad)
 }
 
-func c03StrataOrder(c *core.Ctx) {
-	f := c.MustFunc(rC03Order, "engine", "engine.evalStrata")
-	if f == nil {
-		return
-	}
-	okOuter, okInner, okOwn := c03LoopShape(c, f)
-	c.Check(okOuter && okInner && okOwn, rC03Order, f.Name, f.Decl.Pos(), "layers are visited with an ascending index i; layers j < i are extensional; layer i supplies the rules", fmt.Sprintf("expected an ascending loop over the strata (found=%v), an inner loop over j < i collecting the extensional predicates (found=%v) and Strata[i] as the stratum's own predicates (found=%v)", okOuter, okInner, okOwn))
-}
+func c03StrataOrder(c *core.Ctx) { strataOrderRule(c, rC03Order) }
